@@ -152,7 +152,7 @@ def check(ctx, case):
         cid = "L.c%d" % ci
         if kind == "polys":
             _, _, ar, ip, depth, ft = op
-            if ip and "C06-K1" in ctx.known_ids and has_known_k1(lib, ci, depth):
+            if ip and "C06-K1" in ctx.known_ids and not getattr(ctx, "strict", False) and has_known_k1(lib, ci, depth):
                 k1_skipped += 1
                 ip = False
             tg = ft or [0, 0]
@@ -478,4 +478,8 @@ def run_worker(ctx):
 
 
 def replay(ctx, test, case, ignore_known=False):
-    return check(ctx, case)
+    ctx.strict = ignore_known
+    try:
+        return check(ctx, case)
+    finally:
+        ctx.strict = False
